@@ -651,6 +651,17 @@ func genScript(prop string, seed uint64, run int, big bool) (*Script, *rand.Rand
 			}
 		} else {
 			subject = g.history(0, false)
+			// now and then the same execute twice in a row on the same object
+			var withRepeats []Op
+			for _, op := range subject {
+				withRepeats = append(withRepeats, op)
+				if d := catalogue[op.K]; d != nil && d.exec && g.p(0.35) {
+					rep := op
+					rep.P = []string{"fresh-sol", "repeat-prev"}
+					withRepeats = append(withRepeats, rep)
+				}
+			}
+			subject = withRepeats
 		}
 		s.Tasks = [][]Op{subject}
 		for i, n := 0, g.rng(1, 3); i < n; i++ {
@@ -674,7 +685,12 @@ func genScript(prop string, seed uint64, run int, big bool) (*Script, *rand.Rand
 		s.Strategy = []string{"uniform", "adversary", "pct"}[g.n(3)]
 	case "C18":
 		nT := g.rng(2, 4)
-		if g.p(0.08) {
+		heavy := g.hugeRef > 0 && g.p(0.3)
+		if heavy {
+			// several callers at once in the most expensive kind of call on
+			// the largest input (limits on concurrent heavy jobs)
+			nT = g.rng(4, 6)
+		} else if g.p(0.08) {
 			// more callers than the race detector's four shadow cells can
 			// tell apart: for the outcome oracle (a ring of N shared slots
 			// needs N+1 overlapping calls)
@@ -693,6 +709,13 @@ func genScript(prop string, seed uint64, run int, big bool) (*Script, *rand.Rand
 			// calls which agree on some arguments and differ in others overlap
 			focus := g.focusKind()
 			g.focusShare = g.p(0.5)
+			if heavy {
+				g.focusShare = true
+				focus = "InflatePaths64"
+				if g.meta[g.hugeRef].isD {
+					focus = "InflatePathsD"
+				}
+			}
 			for i := range s.Tasks {
 				var pre []Op
 				for k, n := 0, g.rng(1, 2); k < n; k++ {
